@@ -33,14 +33,14 @@ Idem(m) == m \in {"GET", "HEAD", "PUT", "DELETE", "OPTIONS", "TRACE"}
 NonIdem(m) == m \in {"POST", "PATCH", "CONNECT"}
 Slack == 4000
 
-NoCfg == [ct |-> 0, rt |-> 0]
+NoCfg == [ct |-> 0, rt |-> 0, bo |-> 1]
 Init == l = 1 /\ cfg = NoCfg /\ rq = <<>> /\ cn = <<>> /\ late = FALSE
 
 Known(r) == r \in DOMAIN rq
 KnownC(c) == c \in DOMAIN cn
 Upd(f, k, v) == (k :> v) @@ f
 
-EvBegin == /\ IsEv("Begin") /\ cfg' = [ct |-> Ev.ct, rt |-> Ev.rt] /\ rq' = <<>> /\ cn' = <<>> /\ late' = FALSE
+EvBegin == /\ IsEv("Begin") /\ cfg' = [ct |-> Ev.ct, rt |-> Ev.rt, bo |-> Fld("bo", 1)] /\ rq' = <<>> /\ cn' = <<>> /\ late' = FALSE
 EvReset == /\ IsEv("Reset") /\ cfg' = NoCfg /\ rq' = <<>> /\ cn' = <<>> /\ late' = FALSE
 EvCall == /\ IsEv("Call")
           /\ rq' = Upd(rq, Ev.r, [m |-> Ev.m, b |-> Ev.b, att |-> 0, wire |-> 0, framed |-> FALSE, after |-> 0, ms |-> 0, own |-> TRUE])
@@ -78,10 +78,12 @@ Next == EvBegin \/ EvReset \/ EvCall \/ EvCConn \/ EvSReq \/ EvSTaint \/ EvSLate
 Spec == Init /\ [][Next]_vars
 
 \* ------------------------------------------------------------------------------------------------ the property
-Pow2(n) == IF n = 0 THEN 1 ELSE IF n = 1 THEN 2 ELSE IF n = 2 THEN 4 ELSE IF n = 3 THEN 8 ELSE 16
+RECURSIVE Pow2(_)
+Pow2(n) == IF n <= 0 THEN 1 ELSE 2 * Pow2(n - 1)
 RECURSIVE Backoff(_)
 Backoff(b) == IF b <= 0 THEN 0 ELSE Backoff(b - 1) + 100 * Pow2(b - 1) + 100
-Bound(r) == (rq[r].b + 1) * (cfg.ct + 2 * cfg.rt) + Backoff(rq[r].b) + Slack
+\* bo: the driver divides the back-off sleeps of the calling thread by cfg.bo (large budgets in affordable real time)
+Bound(r) == (rq[r].b + 1) * (cfg.ct + 2 * cfg.rt) + (Backoff(rq[r].b) \div cfg.bo) + Slack
 
 AtMostOnce == \A r \in DOMAIN rq :
                  /\ NonIdem(rq[r].m) => rq[r].wire <= 1
